@@ -443,75 +443,96 @@ func (w *World) ruleIndexGuardsTightPX(r *Report, rule string) {
 				order = append(order, ia)
 			}
 		}
-		if len(order) == 0 || errIndex(fn.Signature) < 0 {
+		if len(order) == 0 {
 			continue
 		}
-		res, complete := w.pxIndexRun(fn, sites, nil)
-		paths, px := w.idxErrPaths, w.idxPX
-		for i, ia := range order {
-			sr := res[ia]
-			if sr == nil || sr.it == nil {
-				continue
+		// the function that reports the refusal: the holder of the access, or — for
+		// an accessor that answers (value, ok) — each of its callers
+		type rootRun struct {
+			root   *ssa.Function
+			forced map[*ssa.Function]bool
+		}
+		var runs []rootRun
+		if errIndex(fn.Signature) >= 0 {
+			runs = append(runs, rootRun{fn, nil})
+		} else if callers, ok := w.staticCallersOf(fn); ok {
+			for _, c := range callers {
+				if errIndex(c.Signature) >= 0 {
+					runs = append(runs, rootRun{c, map[*ssa.Function]bool{fn: true}})
+				}
 			}
-			if _, isC := ia.Index.(*ssa.Const); isC {
-				continue
-			}
-			label := fmt.Sprintf("%s · index #%d", fnName(fn), i+1)
-			if !complete {
-				r.undecided(rule, label, w.instrPos(ia), "path exploration truncated")
-				continue
-			}
-			n++
-			seen, bad, where := 0, 0, ""
-			for _, ep := range paths {
-				constrained := false
-				if ep.met[ia] {
+		}
+		for _, rr := range runs {
+			res, complete := w.pxIndexRun(rr.root, sites, rr.forced)
+			paths, px := w.idxErrPaths, w.idxPX
+			for i, ia := range order {
+				sr := res[ia]
+				if sr == nil || sr.it == nil {
 					continue
 				}
-				for k := range ep.env {
-					if strings.Contains(k, sr.it.key) || (sr.it.K == TConv && sr.it.A != nil && strings.Contains(k, sr.it.A.key)) {
-						constrained = true
-						break
+				if _, isC := ia.Index.(*ssa.Const); isC {
+					continue
+				}
+				label := fmt.Sprintf("%s · index #%d", fnName(fn), i+1)
+				if rr.root != fn {
+					label += " · reported by " + fnName(rr.root)
+				}
+				if !complete {
+					r.undecided(rule, label, w.instrPos(ia), "path exploration truncated")
+					continue
+				}
+				n++
+				seen, bad, where := 0, 0, ""
+				for _, ep := range paths {
+					constrained := false
+					if ep.met[ia] {
+						continue
+					}
+					for k := range ep.env {
+						if strings.Contains(k, sr.it.key) || (sr.it.K == TConv && sr.it.A != nil && strings.Contains(k, sr.it.A.key)) {
+							constrained = true
+							break
+						}
+					}
+					if !constrained {
+						continue
+					}
+					seen++
+					I, _ := px.f.Eval(sr.it, ep.env)
+					if I != nil && (I.Empty() || I.Max().Sign() < 0) {
+						continue
+					}
+					is1 := func(k string, v int64) bool {
+						s, has := ep.env[k]
+						return has && s.Equal(single(v))
+					}
+					a, b := sr.it.key, sr.lt.key
+					if is1("("+a+" >= "+b+")", 1) || is1("("+a+" < "+b+")", 0) || is1("("+b+" <= "+a+")", 1) || is1("("+b+" > "+a+")", 0) {
+						continue
+					}
+					// the unsigned spelling decides both sides at once
+					uns := false
+					for _, ut := range []string{"uint", "uint64", "uint32", "uintptr"} {
+						ua, ub := "conv:"+ut+"("+a+")", "conv:"+ut+"("+b+")"
+						if is1("("+ua+" >= "+ub+")", 1) || is1("("+ua+" < "+ub+")", 0) || is1("("+ub+" <= "+ua+")", 1) || is1("("+ub+" > "+ua+")", 0) {
+							uns = true
+						}
+					}
+					if uns {
+						continue
+					}
+					bad++
+					if where == "" {
+						where = fmt.Sprintf("the error return at %s is reached with index %s ∈ %s and nothing known about %s", ep.pos, a, I, b)
 					}
 				}
-				if !constrained {
-					continue
+				if bad > 0 {
+					r.add(rule, label, w.instrPos(ia), false, where+": a non-negative index that may be in range is refused — index 0 is the first entry of the table")
+				} else {
+					r.add(rule, label, w.instrPos(ia), true, fmt.Sprintf("on the %d error paths that constrain the index it is negative or known to be >= the table length", seen))
 				}
-				seen++
-				I, _ := px.f.Eval(sr.it, ep.env)
-				if I != nil && (I.Empty() || I.Max().Sign() < 0) {
-					continue
-				}
-				is1 := func(k string, v int64) bool {
-					s, has := ep.env[k]
-					return has && s.Equal(single(v))
-				}
-				a, b := sr.it.key, sr.lt.key
-				if is1("("+a+" >= "+b+")", 1) || is1("("+a+" < "+b+")", 0) || is1("("+b+" <= "+a+")", 1) || is1("("+b+" > "+a+")", 0) {
-					continue
-				}
-				// the unsigned spelling decides both sides at once
-				uns := false
-				for _, ut := range []string{"uint", "uint64", "uint32", "uintptr"} {
-					ua, ub := "conv:"+ut+"("+a+")", "conv:"+ut+"("+b+")"
-					if is1("("+ua+" >= "+ub+")", 1) || is1("("+ua+" < "+ub+")", 0) || is1("("+ub+" <= "+ua+")", 1) || is1("("+ub+" > "+ua+")", 0) {
-						uns = true
-					}
-				}
-				if uns {
-					continue
-				}
-				bad++
-				if where == "" {
-					where = fmt.Sprintf("the error return at %s is reached with index %s ∈ %s and nothing known about %s", ep.pos, a, I, b)
-				}
-			}
-			if bad > 0 {
-				r.add(rule, label, w.instrPos(ia), false, where+": a non-negative index that may be in range is refused — index 0 is the first entry of the table")
-			} else {
-				r.add(rule, label, w.instrPos(ia), true, fmt.Sprintf("on the %d error paths that constrain the index it is negative or known to be >= the table length", seen))
 			}
 		}
 	}
-	r.floor(rule+" (decoder table accesses with a computed index)", n, 3)
+	r.floor(rule+" (decoder table accesses with a computed index)", n, 2)
 }
